@@ -7,7 +7,7 @@ use fnv::FnvHasher;
 use crate::data_model::Row;
 use crate::execution::{ColumnProvider, ColumnScope, ExecutionError, ExecutionResult, ExpressionTreeHash, ResultRow};
 use crate::execution::column_providers::{HashMapOwnedKeyColumnProvider, SingleColumnProvider};
-use crate::execution::expression_execution::{ExpressionExecutionEngine};
+use crate::execution::expression_execution::{EvaluationError, ExpressionExecutionEngine};
 use crate::execution::helpers::DistinctValues;
 use crate::helpers::IterExt;
 use crate::model::{Aggregate, AggregateStatement, ExpressionTree, Float, IntervalType, Value, ValueType};
@@ -452,23 +452,13 @@ impl GroupAggregator {
     pub fn update(&mut self, column_value: Value) -> ExecutionResult<Option<Value>> {
         match self {
             GroupAggregator::Sum(sum) => {
-                sum.modify_same_type_numeric_nullable(
-                    &column_value,
-                    |x, y| { *x += y },
-                    |x, y| { *x += y },
-                    |x, y| { *x = x.add(y) }
-                );
+                add_to_sum(sum, &column_value)?;
 
                 let sum = sum.clone();
                 Ok(Some(sum))
             }
             GroupAggregator::Average { sum, count } => {
-                sum.modify_same_type_numeric_nullable(
-                    &column_value,
-                    |x, y| { *x += y },
-                    |x, y| { *x += y },
-                    |x, y| { *x = x.add(y) }
-                );
+                add_to_sum(sum, &column_value)?;
                 *count += 1;
 
                 let average = sum.map_numeric(
@@ -480,31 +470,26 @@ impl GroupAggregator {
                 Ok(average)
             }
             GroupAggregator::StandardDeviation { sum, sum_square, count, is_variance } => {
-                let squared_column_value = column_value.map_numeric(
-                    |x| Some(x * x),
-                    |x| Some(x * x),
-                    |x| {
+                let squared_column_value = match &column_value {
+                    Value::Int(x) => Value::Int(x.checked_mul(*x).ok_or(NUMERIC_OVERFLOW)?),
+                    Value::Float(x) => Value::Float(Float(x.0 * x.0)),
+                    Value::Interval(x) => {
                         if let Some(microseconds) = x.num_microseconds() {
-                            Some(IntervalType::microseconds(microseconds * microseconds))
+                            Value::Interval(IntervalType::microseconds(microseconds.checked_mul(microseconds).ok_or(NUMERIC_OVERFLOW)?))
                         } else {
-                            Some(IntervalType::milliseconds(x.num_milliseconds() * x.num_milliseconds()))
+                            Value::Interval(
+                                x.num_milliseconds().checked_mul(x.num_milliseconds())
+                                    .and_then(|milliseconds| IntervalType::try_milliseconds(milliseconds))
+                                    .ok_or(NUMERIC_OVERFLOW)?
+                            )
                         }
                     }
-                ).unwrap_or(Value::Null);
+                    _ => Value::Null
+                };
 
-                sum.modify_same_type_numeric_nullable(
-                    &column_value,
-                    |x, y| { *x += y },
-                    |x, y| { *x += y },
-                    |x, y| { *x = x.add(y) }
-                );
+                add_to_sum(sum, &column_value)?;
 
-                sum_square.modify_same_type_numeric_nullable(
-                    &squared_column_value,
-                    |x, y| { *x += y },
-                    |x, y| { *x += y },
-                    |x, y| { *x = x.add(y) }
-                );
+                add_to_sum(sum_square, &squared_column_value)?;
 
                 *count += 1;
 
@@ -593,6 +578,26 @@ impl GroupAggregator {
             GroupAggregator::CountDistinct(_) => false
         }
     }
+}
+
+const NUMERIC_OVERFLOW: ExecutionError = ExecutionError::Expression(EvaluationError::UndefinedOperation);
+
+// Adds a value to a running sum, an overflow is an error
+fn add_to_sum(sum: &mut Value, value: &Value) -> ExecutionResult<()> {
+    match (&*sum, value) {
+        (Value::Int(x), Value::Int(y)) => { x.checked_add(*y).ok_or(NUMERIC_OVERFLOW)?; }
+        (Value::Interval(x), Value::Interval(y)) => { x.checked_add(y).ok_or(NUMERIC_OVERFLOW)?; }
+        _ => {}
+    }
+
+    sum.modify_same_type_numeric_nullable(
+        value,
+        |x, y| { *x += y },
+        |x, y| { *x += y },
+        |x, y| { *x = x.add(y) }
+    );
+
+    Ok(())
 }
 
 fn empty_group_value(aggregate: &Aggregate) -> Value {
